@@ -111,6 +111,22 @@ func (c *verifC01) promotion(h string) {
 		return
 	}
 	verifnd.Assert(cnt >= quorum, "promote.quorum-frozen-and-contained")
+	if len(c.w.fleet.FaultsUsed) == 0 {
+		// without failing calls every reachable member of the list is frozen and its position collected:
+		// the promoted node has then caught up with all of them (with the most recent one), not only
+		// with a quorum — in async mode too, where the quorum is a single replica
+		all := true
+		for _, x := range c.published {
+			if c.sw.Cause == CauseAuto && x == c.oldMaster {
+				// an automatic failover deliberately leaves the old master out (it is presumed dead and may
+				// hang): it is neither frozen nor asked for its position, whatever state it really is in
+				continue
+			}
+			xs := c.w.fleet.Servers[x]
+			all = verifnd.And(all, verifnd.Implies(verifnd.And(xs.Alive, xs.ReadOnly), c.union(x)&^hs.Executed == 0))
+		}
+		verifnd.Assert(all, "promote.caught-up-with-every-frozen-member")
+	}
 	// the promoted node must be a member of the published list and never a cascade replica
 	verifnd.Assert(verifContains(c.published, h), "promote.member-of-list")
 	// C03: promotion only after two lock confirmations (after freeze, after catch-up)
@@ -204,7 +220,8 @@ func H_C01_switchover() {
 
 	// ---- the request ----
 	sw := &Switchover{InitiatedBy: "op", InitiatedAt: verifnd.Now()}
-	switch verifnd.Choose("request", verifnd.Param("requests", 4)) {
+	rlo := verifnd.Param("request_lo", 0)
+	switch rlo + verifnd.Choose("request", verifnd.Param("requests", 4)-rlo) {
 	case 0: // automatic failover
 		sw.From, sw.Cause, sw.MasterTransition = master, CauseAuto, FailoverTransition
 	case 1: // manual switchover to a chosen replica
@@ -213,6 +230,10 @@ func H_C01_switchover() {
 		sw.From, sw.Cause, sw.MasterTransition = master, CauseManual, SwitchoverTransition
 	case 3: // worker-filed request without transition
 		sw.From, sw.Cause = master, CauseWorker
+	case 4: // operator-forced failover to a chosen replica (mysync switch --to X --failover)
+		sw.To, sw.Cause, sw.MasterTransition = ha[1+verifnd.Choose("request.to", nrep)], CauseManual, FailoverTransition
+	case 5: // operator-forced failover away from the master
+		sw.From, sw.Cause, sw.MasterTransition = master, CauseManual, FailoverTransition
 	}
 	c.sw = sw
 	c.asyncOK = mode == 2 && sw.Cause == CauseAuto
@@ -332,4 +353,8 @@ func H_C01_switchover() {
 func H_C01_switchover_faults() { H_C01_switchover() }
 
 // H_C01_switchover_locks: the same procedure with every AcquireLock answer decided per call.
+// H_C01_forced_failover: the operator-forced failover requests (cause manual, transition failover)
+// in all three replication modes: the allowed-lag exception of async mode is for automatic failover only.
+func H_C01_forced_failover() { H_C01_switchover() }
+
 func H_C01_switchover_locks() { H_C01_switchover() }
